@@ -158,7 +158,10 @@ def discharge(ob, timeout_ms=20000, seed=0, both=False):
                     res = {'status': 'refuted', 'backend': 'z3', 'time': time.time() - t0, 'model': s1.model(), 'detail': f'counter-model with record lists of length {n}'}
                     return res
     if res is None or both:
-        v, msg = run_cvc5(smt2, timeout_ms)
+        # portfolio: cvc5 gets a short first slice unless both verdicts are wanted; if z3 with the full budget then
+        # still does not decide, cvc5 is asked again with the full budget (stage 4 below)
+        short_cvc5 = (not both) and timeout_ms > 6000
+        v, msg = run_cvc5(smt2, 6000 if short_cvc5 else timeout_ms)
         if res is not None:
             if v in ('sat', 'unsat') and (v == 'unsat') != (res['status'] == 'proved'):
                 return {'status': 'disagree', 'backend': 'z3+cvc5', 'time': time.time() - t0, 'detail': f'z3 says {res["status"]}, cvc5 says {v}'}
@@ -179,6 +182,10 @@ def discharge(ob, timeout_ms=20000, seed=0, both=False):
             return {'status': 'proved', 'backend': 'z3', 'time': time.time() - t0}
         if r2 == z3.sat:
             return {'status': 'refuted', 'backend': 'z3' + ('+cvc5' if v == 'sat' else ''), 'time': time.time() - t0, 'model': small_model(ob, s2)}
+        if v not in ('sat', 'unsat') and short_cvc5:
+            v, msg = run_cvc5(smt2, timeout_ms)
+            if v == 'unsat':
+                return {'status': 'proved', 'backend': 'cvc5', 'time': time.time() - t0}
         if v == 'sat':
             out = {'status': 'refuted', 'backend': 'cvc5', 'time': time.time() - t0, 'detail': 'no model (cvc5 CLI); seed for the native search is a model of the path condition only'}
             s3 = _solver(3000, seed)
